@@ -39,6 +39,8 @@ func runC16(c *eng.Ctx) {
 	histogramNumbersAreNumbers(c)
 	refusedFlatRowIsConsumed(c)
 	onlyStorableFieldTypesAccepted(c)
+	lineTagsResolvedBeforeTheBuilder(c)
+	namespaceFallbackIsReachable(c)
 	p := c.P
 	familyGroupContainsItsFirstRow(c)
 	tagsHashIsStateless(c)
